@@ -61,7 +61,7 @@ def run(ctx: Ctx) -> None:
     from ahbicht.expressions.ahb_expression_evaluation import evaluate_ahb_expression_tree
 
     ctx.rule = ("trees from the condition parser, the AHB parser and the resolver (with packages/time conditions); evaluation results of random AHB expressions "
-                "under random content results incl. UNKNOWN outcomes; content results with None hints, empty dictionaries, with/without packages and id; key extracts (sanitised, unsanitised with repeated keys, after time-condition expansion, hand-made with repeats and numeric ties); "
+                "under random content results incl. UNKNOWN outcomes; content results with None hints, empty dictionaries, with/without packages and id; evaluated format constraints produced by the predefined 931-935 on ordinary / malformed / extreme inputs; key extracts (sanitised, unsanitised with repeated keys, after time-condition expansion, hand-made with repeats and numeric ties); "
                 "distinct = (class, dumped JSON)")
     ctx.coverage["generated_changed"] = extract.regenerate(["Schemas"])
     ok = ctx.lean_build(MODULES)
@@ -130,6 +130,19 @@ def run(ctx: Ctx) -> None:
             id=rng.choice([None, uuid.UUID(int=rng.getrandbits(128))]))
         add("cer", ContentEvaluationResultSchema(), cer)
         add("efc", EvaluatedFormatConstraintSchema(), EvaluatedFormatConstraint(format_constraint_fulfilled=rng.random() < 0.5, error_message=rng.choice([None, "m"])))
+    # evaluated format constraints as the library itself produces them (the predefined 931-935 on ordinary, malformed and extreme inputs)
+    from ahbicht.content_evaluation.german_strom_and_gas_tag import has_no_utc_offset, is_xtag_limit
+    texts = ["2022-01-01T00:00:00+00:00", "2022-03-27T22:00:00Z", "2022-10-30T05:00:00+01:00", "2022-01-01T00:00:00", "abc", "", "9999-12-31T23:00:00Z",
+             "9999-12-31T23:59:59-01:00", "0001-01-01T00:00:00+01:00", "0001-01-01T00:00:00Z", "2022-13-01T00:00:00Z", "20220101", "2022-01-01T05:00:00+00:00"]
+    for t in texts:
+        for fn_name, fn in (("931", lambda v: has_no_utc_offset(v)), ("932", lambda v: is_xtag_limit(v, "Strom")), ("934", lambda v: is_xtag_limit(v, "Gas"))):
+            try:
+                produced = fn(t)
+            except BaseException:  # pylint:disable=broad-except
+                continue  # C20's business
+            add("efc", EvaluatedFormatConstraintSchema(), produced, extra={"produced_by": f"predefined format constraint {fn_name} on {t!r}"})
+            add("cer", ContentEvaluationResultSchema(), ContentEvaluationResult(hints={}, format_constraints={fn_name: produced}, requirement_constraints={}, packages={}),
+                extra={"produced_by": f"predefined format constraint {fn_name} on {t!r}"})
     rows = []
     for cls, schema, obj, keyfn, extra in items:
         try:
